@@ -14,7 +14,20 @@ _BASELINES = {}
 ALL = [p for p in ["C%02d" % i for i in range(1, 21)] if p in PROPS]
 
 
+def merge(paths):
+    path = os.path.join(V, "seeded", "MATRIX.json")
+    mat = json.load(open(path)) if os.path.exists(path) else {}
+    for p in paths:
+        mat.update(json.load(open(p)))
+    mat = {k: v for k, v in mat.items() if os.path.isdir(os.path.join(V, "seeded", k))}
+    json.dump(mat, open(path, "w"), indent=1)
+    write_md(mat)
+    print(len(mat), "changes;", len([1 for m in mat.values() if m["fired"]]), "detected")
+
+
 def main():
+    if sys.argv[1:2] == ["merge"]:
+        return merge(sys.argv[2:])
     ids = sys.argv[1:] or sorted(d for d in os.listdir(os.path.join(V, "seeded")) if os.path.isdir(os.path.join(V, "seeded", d)))
     path = os.environ.get("SEED_MATRIX", os.path.join(V, "seeded", "MATRIX.json"))
     mat = json.load(open(path)) if os.path.exists(path) else {}
@@ -60,7 +73,10 @@ def main():
         mat[sid] = {"property": meta["property"], "summary": meta.get("summary"), "fired": fired, "apply_failed": "APPLY-FAILED" in r.stdout, "base": used_base or "HEAD"}
         print(sid, "->", {k: v["keys"][:2] for k, v in fired.items()} or "SILENT", flush=True)
         json.dump(mat, open(path, "w"), indent=1)
-    # markdown
+    write_md(mat)
+
+
+def write_md(mat):
     lines = ["# Seeded changes vs checks", "", "Each change breaks the named property, compiles and passes the unedited test suite (confirmed at intake; see each meta.json).", "", "| change | breaks | caught by (rule instances) | own property's check fires |", "|---|---|---|---|"]
     for sid in sorted(mat):
         m = mat[sid]
